@@ -24,15 +24,16 @@ type vhDoc struct {
 
 type vhStore struct {
 	base.DataStore
-	docs         map[string]*vhDoc
-	casCtr       uint64
-	faults       bool
-	interfere    bool
-	okWrites     int
-	failedOps    int
-	deletes      int
-	interfered   int
-	interfereMax int // 0 = unbounded
+	docs          map[string]*vhDoc
+	casCtr        uint64
+	faults        bool
+	interfere     bool
+	okWrites      int
+	failedOps     int
+	deletes       int
+	interfered    int
+	interfereMax  int // 0 = unbounded
+	commitUpdates bool
 }
 
 func vhNewStore(faults, interfere bool) *vhStore {
@@ -148,7 +149,8 @@ func (s *vhStore) Get(ctx context.Context, k string, rv any) (uint64, error) {
 	return d.cas, nil
 }
 
-// Update is only reached natively (replay): the engine redirects getPrincipal to vhGetPrincipal instead.
+// Update: natively (replay) and, for harnesses that redirect the JSON codec to vhJSONMarshal/vhJSONUnmarshal, in the
+// engine. With commitUpdates the callback's output replaces the stored value (decoded through the same codec).
 func (s *vhStore) Update(ctx context.Context, k string, exp uint32, callback sgbucket.UpdateFunc) (uint64, error) {
 	if s.fail() { // same draw as vhGetPrincipal, so replay values line up
 		return 0, vhErrStore
@@ -162,14 +164,170 @@ func (s *vhStore) Update(ctx context.Context, k string, exp uint32, callback sgb
 			return 0, err
 		}
 	}
-	_, _, _, err := callback(cur)
+	updated, _, isDelete, err := callback(cur)
 	if err != nil {
 		return 0, err
+	}
+	if s.commitUpdates {
+		if s.fail() { // the write itself may fail after the callback ran
+			return 0, vhErrStore
+		}
+		if isDelete {
+			delete(s.docs, k)
+			s.okWrites++
+			return 0, nil
+		}
+		if updated != nil {
+			var nv any
+			switch d.v.(type) {
+			case *userImpl:
+				nv = &userImpl{}
+			case *roleImpl:
+				nv = &roleImpl{}
+			default:
+				vFail("harness store: Update of unsupported value type")
+			}
+			if err := base.JSONUnmarshal(updated, nv); err != nil {
+				return 0, err
+			}
+			nd := &vhDoc{v: nv, cas: s.nextCas()}
+			s.docs[k] = nd
+			s.okWrites++
+			return nd.cas, nil
+		}
 	}
 	if ok {
 		return d.cas, nil
 	}
 	return 0, nil
+}
+
+// SubdocInsert models the sub-document insert of the invalidation paths: the field is set only if it is absent
+// (zero, as the fields are omitempty); an existing field gives ErrPathExists, a missing parent ErrPathNotFound.
+func (s *vhStore) SubdocInsert(ctx context.Context, k string, fieldPath string, cas uint64, value any) error {
+	if s.fail() {
+		return vhErrStore
+	}
+	d, ok := s.docs[k]
+	if !ok {
+		return sgbucket.MissingError{Key: k}
+	}
+	seq, isSeq := value.(uint64)
+	if !isSeq {
+		vFail("harness store: SubdocInsert of a non-sequence value")
+	}
+	nv := vhDeepSnapshot(d.v)
+	var role *roleImpl
+	var user *userImpl
+	switch x := nv.(type) {
+	case *userImpl:
+		user, role = x, &x.roleImpl
+	case *roleImpl:
+		role = x
+	}
+	var target *uint64
+	switch fieldPath {
+	case "channel_inval_seq":
+		target = &role.ChannelInvalSeq
+	case "role_inval_seq":
+		if user == nil {
+			return base.ErrPathNotFound
+		}
+		target = &user.RoleInvalSeq
+	case "collection_access.s1.c1.channel_inval_seq":
+		ca, ok := role.CollectionsAccess["s1"]["c1"]
+		if !ok {
+			return base.ErrPathNotFound
+		}
+		target = &ca.ChannelInvalSeq
+	default:
+		vFail("harness store: SubdocInsert of an unmodelled path")
+	}
+	if *target != 0 {
+		return base.ErrPathExists
+	}
+	*target = seq
+	s.docs[k] = &vhDoc{v: nv, cas: s.nextCas()}
+	s.okWrites++
+	return nil
+}
+
+// ---- in-memory stand-in for the JSON codec on principals (engine only: redirect targets of base.JSONMarshal /
+// base.JSONUnmarshal). A marshalled value is a one-byte handle into a table of snapshots.
+
+var vhCodecTable []any
+
+func vhCopyCollectionsAccess(m map[string]map[string]*CollectionAccess) map[string]map[string]*CollectionAccess {
+	if m == nil {
+		return nil
+	}
+	out := map[string]map[string]*CollectionAccess{}
+	for sc, cols := range m {
+		o := map[string]*CollectionAccess{}
+		for cn, ca := range cols {
+			c := *ca
+			o[cn] = &c
+		}
+		out[sc] = o
+	}
+	return out
+}
+
+func vhDeepSnapshot(v any) any {
+	switch x := v.(type) {
+	case *userImpl:
+		c := *x
+		c.CollectionsAccess = vhCopyCollectionsAccess(x.CollectionsAccess)
+		c.auth, c.roles, c.deletedRoles = nil, nil, nil
+		c.cas, c.docID = 0, ""
+		return &c
+	case *roleImpl:
+		c := *x
+		c.CollectionsAccess = vhCopyCollectionsAccess(x.CollectionsAccess)
+		c.cas, c.docID = 0, ""
+		return &c
+	}
+	vFail("harness codec: unsupported value type")
+	return nil
+}
+
+func VhJSONMarshal(v any) ([]byte, error) {
+	if p, ok := v.(*Principal); ok {
+		v = *p
+	}
+	vhCodecTable = append(vhCodecTable, vhDeepSnapshot(v))
+	return []byte{byte(len(vhCodecTable) - 1)}, nil
+}
+
+func VhJSONUnmarshal(data []byte, v any) error {
+	src := vhDeepSnapshot(vhCodecTable[int(data[0])])
+	if p, ok := v.(*Principal); ok {
+		v = *p
+	}
+	switch t := v.(type) {
+	case *userImpl:
+		u, ok := src.(*userImpl)
+		if !ok {
+			return errors.New("verif codec: stored value is not a user")
+		}
+		docID := t.docID
+		*t = *u
+		t.docID = docID
+	case *roleImpl:
+		switch r := src.(type) {
+		case *roleImpl:
+			docID := t.docID
+			*t = *r
+			t.docID = docID
+		case *userImpl:
+			docID := t.docID
+			*t = r.roleImpl
+			t.docID = docID
+		}
+	default:
+		vFail("harness codec: unmarshal into unsupported target type")
+	}
+	return nil
 }
 
 // vhGetPrincipal replaces (*Authenticator).getPrincipal in the engine: a reload returns a fresh copy of
